@@ -455,19 +455,21 @@ def _write_external_data(
     destination_path = (
         os.path.realpath(requested_path) if os.path.islink(requested_path) else requested_path
     )
-    destination_dir = os.path.dirname(destination_path) or "."
-    temporary_dir = tempfile.mkdtemp(
-        dir=destination_dir,
-        prefix=f".{os.path.basename(destination_path)}.",
-    )
-    temporary_path = os.path.join(temporary_dir, os.path.basename(destination_path))
-
+    # Computed before the temporary directory is created: os.path.samefile can raise
+    # (e.g. ValueError for a location with an embedded null byte) and nothing must be
+    # left behind in that case.
     overwritten_tensors = [
         tensor
         for tensor in tensors
         if isinstance(tensor, _core.ExternalTensor)
         and _paths_refer_to_same_file(tensor.path, destination_path)
     ]
+    destination_dir = os.path.dirname(destination_path) or "."
+    temporary_dir = tempfile.mkdtemp(
+        dir=destination_dir,
+        prefix=f".{os.path.basename(destination_path)}.",
+    )
+    temporary_path = os.path.join(temporary_dir, os.path.basename(destination_path))
     try:
         writer = _ExternalDataWriter(
             tensors,
